@@ -3,9 +3,33 @@
  tracklib/algo/mapping.py mapOnTrack / __projOnTrack)."""
 import math
 from fractions import Fraction as F
-from engine import Prop, fbits, bitsf, tok_list, close
+from engine import Prop, fbits, bitsf, tok_list, close, err_kind
 
 TOL = 1e-9
+
+
+class Plumbing(Exception):
+    """an exception raised while the HARNESS builds the inputs of a call (tracks, observations, coordinates, in-place edits of
+    a sequence) or reads back what it has just built: not an answer of the projection. impl() reports it as
+    {"plumbing": ...}: the oracle does not judge it (it is not about the property), the correspondence does (no model
+    output has that shape)."""
+
+
+def plumb(fn, *a, **kw):
+    try:
+        return fn(*a, **kw)
+    except Plumbing:
+        raise
+    except KeyboardInterrupt:
+        raise
+    except BaseException as e:
+        raise Plumbing("%s: %s" % (type(e).__name__, str(e)[:160]))
+
+
+# names of the analytical features a track of queries / a reference track may carry before the call ("dist" and "edge" are
+# the names mapOnTrack itself writes: a track that was snapped before carries them); values of such a pre-existing feature
+FEAT_NAMES = ["dist", "edge", "speed", "abs_curv", "d", "Dist", "edge2", "hdop_"]
+FEAT_VALUES = [0.0, 0.5, 3.0, 12.25, -1.0, 1e6, 7.0, 99.0]
 
 
 # ------------------------------------------------------------------------------------------
@@ -258,8 +282,9 @@ class P(Prop):
     def setup(self):
         from tracklib.util import geometry
         from tracklib.algo import mapping
-        from tracklib.core import ENUCoords, Obs
+        from tracklib.core import ENUCoords, Obs, ObsTime
         from tracklib import Track
+        self.ObsTime = ObsTime
         from tracklib.core import GeoCoords, ECEFCoords
         import numpy
         self.g, self.m, self.E, self.Obs, self.Track, self.np = geometry, mapping, ENUCoords, Obs, Track, numpy
@@ -436,7 +461,7 @@ class P(Prop):
         return pts
 
     def random_case(self, rng, stream):
-        kind = rng.choices(["seg", "poly", "polyxy", "map", "proj", "mapt", "seq"], weights=[30, 40, 4, 20, 8, 10, 8])[0]
+        kind = rng.choices(["seg", "poly", "polyxy", "map", "proj", "mapt", "seq", "mapf"], weights=[30, 40, 4, 20, 8, 10, 8, 10])[0]
         r = rng.random()
         n = 2 if kind == "seg" else (rng.randint(31, 120) if r < 0.0125 else rng.randint(6, 30) if r < 0.125 else rng.randint(2, 5))
         pts = self.rand_points(rng, stream, n)
@@ -461,6 +486,8 @@ class P(Prop):
         coords = rng.choices(["ENU", "GEO", "ECEF"], weights=[1, 8, 0] if stream == "geo" else [6, 2, 1])[0]
         if kind == "seq":
             return self.random_seq(rng, stream, pts, coords)
+        if kind == "mapf":
+            return self.random_mapf(rng, stream, pts, coords)
         nq = rng.randint(1, 4) if kind == "mapt" else 1
         alt, Z, QZ = self.rand_alt(rng, n, nq)
         base = {"kind": kind, "stream": stream, "coords": coords, "alt": alt, "X": X, "Y": Y, "Z": Z}
@@ -502,6 +529,46 @@ class P(Prop):
                 Y = Y[:rng.randint(0, len(Y) - 1)]
         return {"kind": kind, "stream": "nonfinite", "cont": rng.choice(["list", "list", "tuple", "npf"]),
                 "qform": rng.choice(["float", "float", "np"]), "X": X, "Y": Y, "q": q}
+
+    def random_mapf(self, rng, stream, pts, coords):
+        """mapOnTrack(track_of_queries, track) on track objects that carry STATE: the track of queries has analytical features
+        of its own ("feats": [[name, values]], names drawn from FEAT_NAMES — "dist" / "edge" included, the names mapOnTrack
+        writes), time stamps ("times"), the reference tracks have features too ("rfeats"); "more": further reference
+        polylines — the OUTPUT track of call k is the track of queries of call k + 1 (chained snapping: it carries the dist /
+        edge of call k); "alias": the track of queries of the first call IS the reference track object."""
+        n = len(pts)
+        nq = 0 if rng.random() < 0.01 else rng.randint(1, 5)
+        alt, Z, QZ = self.rand_alt(rng, n, max(nq, 1))
+        QZ = QZ[:nq]
+        Q = [self.rand_query(rng, stream, pts) for _ in range(nq)]
+        alias = rng.random() < 0.05
+        if alias:
+            Q, QZ, nq = [[p[0], p[1]] for p in pts], list(Z), n
+        more = []
+        for _ in range(rng.choices([0, 1, 2], weights=[5, 4, 1])[0]):
+            how = rng.choice(["same", "shift", "other", "other"])
+            if how == "same":
+                P2 = list(pts)
+            elif how == "shift":
+                tx, ty = self.rand_offset(rng, stream)
+                P2 = [(p[0] + tx, p[1] + ty) for p in pts]
+            else:
+                P2 = self.rand_points(rng, stream, rng.randint(2, 5))
+            Z2 = [0.0] * len(P2) if rng.random() < 0.5 else [rng.choice(self.ALTS) for _ in P2]
+            more.append({"X": [p[0] for p in P2], "Y": [p[1] for p in P2], "Z": Z2})
+        names = rng.sample(FEAT_NAMES[2:], rng.choice([0, 0, 1, 2]))
+        r = rng.random()
+        if r < 0.5:
+            names += rng.choice([["dist"], ["edge"], ["dist", "edge"], ["edge", "dist"]])
+        rng.shuffle(names)
+        feats = [[nm, [rng.choice(FEAT_VALUES) for _ in range(nq)]] for nm in names] if nq else []
+        times = None
+        if rng.random() < 0.5:
+            t0 = float(rng.choice([0, 1000, 86400 * 365, 1600000000]))
+            times = [t0 + 5.0 * j + rng.choice([0.0, 0.5]) for j in range(nq)]
+        rfeats = rng.sample(FEAT_NAMES, rng.choice([0, 0, 1, 2]))
+        return {"kind": "mapf", "stream": stream, "coords": coords, "alt": alt, "X": [p[0] for p in pts], "Y": [p[1] for p in pts], "Z": Z,
+                "more": more, "Q": Q, "QZ": QZ, "feats": feats, "times": times, "rfeats": rfeats, "alias": alias}
 
     def random_seq(self, rng, stream, pts, coords):
         """operations on ONE track object: ["q", x, y, z] project a coordinate; ["qt", [[x, y, z], ..]] project a track of
@@ -576,6 +643,8 @@ class P(Prop):
         if k == "seq":
             return [(X, Y, q[:2], flat(Z) and flat([q[2]])) for (X, Y, Z, q) in self.seq_steps(case)]
         X, Y = self.poly_of(case)
+        if k == "mapf":     # the queries of the FIRST call only (those of the later calls are outputs: see spec_mapf)
+            return [(X, Y, q[:2], flat(case["Z"]) and flat([q[2]])) for q in self.mapf_queries0(case)]
         if k == "mapt":
             QZ = case.get("QZ", [0.0] * len(case["Q"]))
             return [(X, Y, q, flat(case.get("Z", [0.0])) and flat([QZ[j]])) for j, q in enumerate(case["Q"])]
@@ -592,6 +661,11 @@ class P(Prop):
         else:
             t["coords"] = case.get("coords", "ENU")
             t["altitudes"] = case.get("alt", "flat")
+        if case["kind"] == "mapf":
+            nm = [f[0] for f in case.get("feats", [])]
+            t["calls"] = 1 + len(case.get("more", []))
+            t["query_features"] = "none" if not nm else "dist/edge" if ("dist" in nm or "edge" in nm) else "other"
+            t["query_track"] = ("alias" if case.get("alias") else "empty" if not case["Q"] else "timed" if case.get("times") else "untimed")
         return t
 
     def nontrivial(self, case):
@@ -611,13 +685,16 @@ class P(Prop):
             return [int(v) for v in L]
         return list(L)
 
-    def track(self, X, Y, Z=None, coords="ENU"):
+    def track(self, X, Y, Z=None, coords="ENU", times=None):
         """A Track. Every Track object made here stays referenced until the end of the process (emptied once its case is
         over): CPython then never gives a later track the `id` of an earlier one, so that what a case observes depends on
         that case alone (state keyed by object identity is exercised by the "seq" cases, deterministically)."""
         C = self.C[coords]
         Z = [0.0] * len(X) if Z is None else Z
-        T = self.Track([self.Obs(C(x, y, zf(z))) for x, y, z in zip(X, Y, Z)])
+        if times is None:
+            T = plumb(lambda: self.Track([self.Obs(C(x, y, zf(z))) for x, y, z in zip(X, Y, Z)]))
+        else:
+            T = plumb(lambda: self.Track([self.Obs(C(x, y, zf(z)), self.ObsTime.readUnixTime(t)) for x, y, z, t in zip(X, Y, Z, times)]))
         self._live.append(T)
         return T
 
@@ -631,6 +708,16 @@ class P(Prop):
         return [float(d), float(c.getX()), float(c.getY()), int(i), float(c.getZ())]
 
     def impl(self, case):
+        try:
+            return self.impl_(case)
+        except Plumbing as e:
+            return {"plumbing": str(e)}
+        except Exception as e:
+            if case["kind"] == "mapf":      # impl_mapf catches what the calls raise: anything else comes from the harness
+                return {"plumbing": "%s: %s" % (type(e).__name__, str(e)[:160])}
+            raise
+
+    def impl_(self, case):
         self.release()
         k = case["kind"]
         cont = case.get("cont", "list")
@@ -647,7 +734,7 @@ class P(Prop):
         C = self.C[coords]
         if k in ("map", "proj"):
             T = self.track(case["X"], case["Y"], case.get("Z"), coords)
-            pt = C(case["q"][0], case["q"][1], zf(case.get("qz", 0.0)))
+            pt = plumb(C, case["q"][0], case["q"][1], zf(case.get("qz", 0.0)))
             c, d, i = self.projOnTrack(pt, T) if k == "proj" else self.m.mapOnTrack(pt, T)
             r = self.row(c, d, i)
             return {"d": r[0], "p": [r[1], r[2]], "i": r[3], "z": r[4]}
@@ -656,30 +743,88 @@ class P(Prop):
             qt = self.track([q[0] for q in case["Q"]], [q[1] for q in case["Q"]], QZ, coords)
             o = self.m.mapOnTrack(qt, self.track(case["X"], case["Y"], case.get("Z"), coords))
             return {"rows": self.rows_of_track(o), "n": o.size(), "features": sorted(o.getListAnalyticalFeatures())}
+        if k == "mapf":
+            return self.impl_mapf(case, coords)
         if k == "seq":
             T = self.track(case["X"], case["Y"], case["Z"], coords)
             rows = []
             for op in case["ops"]:
                 if op[0] == "q":
-                    rows.append(self.row(*self.m.mapOnTrack(C(op[1], op[2], zf(op[3])), T)))
+                    rows.append(self.row(*self.m.mapOnTrack(plumb(C, op[1], op[2], zf(op[3])), T)))
                 elif op[0] == "qt":
                     qt = self.track([q[0] for q in op[1]], [q[1] for q in op[1]], [q[2] for q in op[1]], coords)
                     rows += self.rows_of_track(self.m.mapOnTrack(qt, T))
                 elif op[0] == "set":
-                    pos = T.getObs(op[1]).position
-                    pos.setX(op[2]); pos.setY(op[3]); pos.setZ(zf(op[4]))
+                    def set_(T=T, op=op):
+                        pos = T.getObs(op[1]).position
+                        pos.setX(op[2]); pos.setY(op[3]); pos.setZ(zf(op[4]))
+                    plumb(set_)
                 elif op[0] == "shift":
-                    for j in range(T.size()):
-                        pos = T.getObs(j).position
-                        pos.setX(pos.getX() + op[1]); pos.setY(pos.getY() + op[2])
+                    def shift_(T=T, op=op):
+                        for j in range(T.size()):
+                            pos = T.getObs(j).position
+                            pos.setX(pos.getX() + op[1]); pos.setY(pos.getY() + op[2])
+                    plumb(shift_)
                 elif op[0] == "app":
-                    T.addObs(self.Obs(C(op[1], op[2], zf(op[3]))))
+                    plumb(lambda: T.addObs(self.Obs(C(op[1], op[2], zf(op[3])))))
                 elif op[0] == "new":
-                    T = self.track(T.getX(), T.getY(), T.getZ(), coords)
+                    T = self.track(*plumb(lambda: (T.getX(), T.getY(), T.getZ())), coords)
                 else:
                     raise ValueError(op[0])
             return {"rows": rows, "n": len(rows)}
         raise ValueError(k)
+
+    # -- mapOnTrack(track, track) on track objects that carry features / time stamps, chained (kind "mapf")
+    def mapf_refs(self, case):
+        return [(case["X"], case["Y"], case["Z"])] + [(r["X"], r["Y"], r["Z"]) for r in case.get("more", [])]
+
+    def mapf_queries0(self, case):
+        """[[x, y, z]]: the track of queries of the first call"""
+        if case.get("alias"):
+            return [[x, y, z] for x, y, z in zip(case["X"], case["Y"], case["Z"])]
+        return [[q[0], q[1], z] for q, z in zip(case["Q"], case["QZ"])]
+
+    def read_positions(self, T):
+        return [[float(T.getX(j)), float(T.getY(j)), float(T.getZ(j))] for j in range(T.size())]
+
+    def impl_mapf(self, case, coords):
+        """{"calls": [one per completed call: {"Q": the positions of the track of queries as read just before the call,
+        "rows", "n", "features", "t"}], and, when a call raised, "err" + "Q" (the queries of that call)}"""
+        refs = [self.track(X, Y, Z, coords) for (X, Y, Z) in self.mapf_refs(case)]
+
+        def feat(T, name, vals):
+            if T.size() > 0:
+                T.createAnalyticalFeature(name, list(vals))
+                if list(T.getAnalyticalFeature(name)) != list(vals):
+                    raise ValueError("feature %s was not stored" % name)
+        for T in refs:
+            for name in case.get("rfeats", []):
+                plumb(feat, T, name, [float(j) for j in range(T.size())])
+        if case.get("alias"):
+            cur = refs[0]
+        else:
+            Q0 = self.mapf_queries0(case)
+            cur = self.track([q[0] for q in Q0], [q[1] for q in Q0], [q[2] for q in Q0], coords, case.get("times"))
+        for name, vals in case.get("feats", []):
+            if not (case.get("alias") and name in case.get("rfeats", [])):
+                plumb(feat, cur, name, vals)
+        calls = []
+        for R in refs:
+            Q = plumb(self.read_positions, cur)
+            try:
+                o = self.m.mapOnTrack(cur, R)
+                call = {"Q": Q, "rows": self.rows_of_track(o), "n": o.size(), "features": sorted(o.getListAnalyticalFeatures())}
+            except BaseException as e:
+                if isinstance(e, KeyboardInterrupt):
+                    raise
+                return {"calls": calls, "err": err_kind(e), "detail": str(e)[:200], "Q": Q}
+            try:
+                call["t"] = [float(o.getObs(j).timestamp.toAbsTime()) for j in range(o.size())]
+            except Exception:
+                call["t"] = None
+            calls.append(call)
+            cur = o
+        return {"calls": calls}
 
     def rows_of_track(self, o):
         D, Ed = o.getAnalyticalFeature("dist"), o.getAnalyticalFeature("edge")
@@ -713,11 +858,50 @@ class P(Prop):
         if k == "seq":
             return ["C20.map3 %s %s %s %s %s %s" % (fl(X), fl(Y), fl(Z), fbits(q[0]), fbits(q[1]), fbits(zf(q[2])))
                     for (X, Y, Z, q) in self.seq_steps(case)]
+        if k == "mapf":
+            Q0 = self.mapf_queries0(case)
+            feats = list(case.get("feats", []))
+            if case.get("alias"):       # the track of queries is the reference track: it carries the reference's features too
+                rf = [nm for nm in case.get("rfeats", [])]
+                feats = [[nm, [float(j) for j in range(len(Q0))]] for nm in rf] + [f for f in feats if f[0] not in rf]
+            if not Q0:
+                feats = []
+            names = ",".join(f[0] for f in feats) or "_"
+            cols = ";".join(fl(f[1]) for f in feats) or "_"
+            times = case.get("times") if (case.get("times") is not None and not case.get("alias")) else [0.0] * len(Q0)
+            refs = "|".join("%s;%s;%s" % (fl(X), fl(Y), fl(Z)) for (X, Y, Z) in self.mapf_refs(case))
+            return ["C20.mapf %s %s %s %s %s %s %s" % (names, cols, fl([q[0] for q in Q0]), fl([q[1] for q in Q0]), fl([q[2] for q in Q0]),
+                                                       fl(times), refs)]
 
-    ERR = {"zerodiv": "err:zerodiv", "unbound": "err:UnboundLocalError", "index": "err:index"}
+    ERR = {"zerodiv": "err:zerodiv", "unbound": "err:UnboundLocalError", "index": "err:index", "af": "err:AnalyticalFeatureError"}
+
+    def decode_mapf(self, case, replies):
+        r = replies[0].split()
+        if r[0] == "ok":
+            out, toks = {}, r[1:]
+        elif r[0] == "err" and len(r) >= 2:
+            out, toks = {"err": self.ERR[r[1]]}, r[2:]
+        else:
+            raise ValueError(replies[0])
+        calls = []
+        for tok in toks:
+            names, ts, rows = tok.split("/")
+            rr = []
+            for item in ([] if rows == "_" else rows.split(";")):
+                f = item.split(",")
+                e = bitsf(f[4])
+                if not float(e).is_integer():
+                    raise ValueError(tok)
+                rr.append([bitsf(f[3]), bitsf(f[0]), bitsf(f[1]), int(e), bitsf(f[2])])
+            calls.append({"rows": rr, "n": len(rr), "features": sorted([] if names == "_" else names.split(",")),
+                          "t": [] if ts == "_" else [bitsf(v) for v in ts.split(",")]})
+        out["calls"] = calls
+        return out
 
     def decode(self, case, replies):
         k = case["kind"]
+        if k == "mapf":
+            return self.decode_mapf(case, replies)
         if k == "seq":
             rows = []
             for rep in replies:         # the first exception aborts the sequence
@@ -750,8 +934,52 @@ class P(Prop):
                 rows.append([bitsf(f[3]), bitsf(f[0]), bitsf(f[1]), int(f[4]), bitsf(f[2])])
         return {"rows": rows, "n": len(rows), "features": ["dist", "edge"]}
 
+    def compare_mapf(self, case, a, m):
+        """calls compared one by one; where the property leaves freedom (a tie) the implementation's answer is validated, and
+        so are the calls after it (their queries are then no longer those of the model)"""
+        strip = lambda o: dict({k: v for k, v in o.items() if k not in ("detail", "Q", "calls")},
+                               calls=[{k: v for k, v in c.items() if k != "Q"} for c in o.get("calls", [])])
+        if "calls" not in a or "calls" not in m:
+            return "impl=%s model=%s" % (a, m)
+        sa, sm = strip(a), strip(m)
+        if close(sa, sm, self.rel_tol):
+            return None
+        bad = "impl=%s model=%s" % (sa, sm)
+        refs = self.mapf_refs(case)
+        diverged = False
+        for k, ca in enumerate(a["calls"]):
+            if k >= len(refs):
+                return bad
+            X, Y, _ = refs[k]
+            cm = m["calls"][k] if k < len(m["calls"]) else None
+            if not diverged:
+                if cm is None or {kk: v for kk, v in ca.items() if kk not in ("rows", "Q")} != {kk: v for kk, v in cm.items() if kk != "rows"}:
+                    return bad
+                if len(ca["rows"]) != len(cm["rows"]) or len(ca["Q"]) != len(ca["rows"]):
+                    return bad
+            for j, ra in enumerate(ca["rows"]):
+                if not diverged and close(ra, cm["rows"][j], self.rel_tol):
+                    continue
+                if j >= len(ca["Q"]) or self.classify_one(X, Y, ca["Q"][j][:2], tuple(ra[:4])) is None:
+                    return bad
+                if not diverged:
+                    rm = cm["rows"][j]
+                    if self.classify_one(X, Y, ca["Q"][j][:2], tuple(rm[:4])) is None or not close([ra[0], ra[4]], [rm[0], rm[4]], self.rel_tol):
+                        return bad
+                    if not close(ra[1:3], rm[1:3], self.rel_tol):
+                        diverged = True      # another, equally near point: the next call projects other queries than the model's
+        if diverged:
+            return bad if ("err" in a and self.mapf_err_class(case, a) is None) else None
+        if len(a["calls"]) != len(m["calls"]) or a.get("err") != m.get("err"):
+            return bad
+        return None
+
     def compare(self, case, impl_out, model_out):
         a = {k: v for k, v in impl_out.items() if k != "detail"}
+        if "plumbing" in a:
+            return "the harness could not build the inputs of the call (%s); model=%s" % (a["plumbing"], model_out)
+        if case["kind"] == "mapf":
+            return self.compare_mapf(case, a, model_out)
         if close(a, model_out, self.rel_tol):
             return None
         # freedom left by the property: a tie (same distance reached on two segments / at two points). The two
@@ -790,6 +1018,9 @@ class P(Prop):
         return any(out_of_range(X, Y, q) for (X, Y, q, _) in self.queries_of(case))
 
     def in_domain(self, case):
+        if case["kind"] == "mapf":
+            Q0 = self.mapf_queries0(case)
+            return not self.mapf_unconstrained(case["X"], case["Y"], Q0)
         if case["kind"] == "polyxy" and len(case["Y"]) < len(case["X"]):
             return False        # a Yp shorter than Xp is not a polyline
         if self.out_of_range(case):
@@ -801,11 +1032,109 @@ class P(Prop):
         return all(any(abs(float(X[j]) - float(X[j + 1])) + abs(float(Y[j]) - float(Y[j + 1])) >= 1e-16 for j in range(len(X) - 1))
                    for (X, Y, _, _) in self.queries_of(case))
 
+    # -- the oracle on chained calls on track objects: every call is judged on the queries it was GIVEN (read from the track
+    #    of queries just before the call) and on the reference polyline of that call
+    @staticmethod
+    def live_polyline(X, Y):
+        return any(abs(float(X[j]) - float(X[j + 1])) + abs(float(Y[j]) - float(Y[j + 1])) >= 1e-16 for j in range(len(X) - 1))
+
+    def mapf_unconstrained(self, X, Y, Q):
+        """the property says nothing about this call: no query, a single-point reference, or distances outside the double range"""
+        return (not Q) or (not self.live_polyline(X, Y)) or any(out_of_range(X, Y, q[:2]) for q in Q)
+
+    def mapf_err_class(self, case, out):
+        """class of the exception that stopped the chain: "outside" (the property does not constrain that call), the listed
+        class "vertical-segment" (ZeroDivisionError of D16), or None"""
+        refs = self.mapf_refs(case)
+        k = len(out.get("calls", []))
+        Q = out.get("Q")
+        if k >= len(refs) or Q is None:
+            return None
+        X, Y, _ = refs[k]
+        if self.mapf_unconstrained(X, Y, Q):
+            return "outside"
+        if out["err"] == "err:zerodiv" and any(self.zerodiv_vertical(X, Y, q[:2]) for q in Q):
+            return "vertical-segment"
+        return None
+
+    def mapf_rows(self, case, out):
+        """[(call number, X, Y, query [x, y], flat?, row)] for every row of every completed call"""
+        refs = self.mapf_refs(case)
+        res = []
+        for k, call in enumerate(out.get("calls", [])[:len(refs)]):
+            X, Y, Z = refs[k]
+            for q, r in zip(call["Q"], call["rows"]):
+                res.append((k, X, Y, q[:2], flat(Z) and flat([None if q[2] != q[2] else q[2]]), r))
+        return res
+
+    def spec_mapf(self, case, out):
+        refs = self.mapf_refs(case)
+        calls = out.get("calls", [])
+        first = None
+        for k, call in enumerate(calls[:len(refs)]):
+            X, Y, Z = refs[k]
+            Q = call["Q"]
+            if self.mapf_unconstrained(X, Y, Q):
+                return first      # nothing stated about this call, nor about what is chained on its output
+            if call["n"] != len(Q) or len(call["rows"]) != len(Q):
+                return "call %d: mapOnTrack returned %d observations for %d queries" % (k, call["n"], len(Q))
+            if "dist" not in call["features"] or "edge" not in call["features"]:
+                return "call %d: mapOnTrack output carries the features %s (no dist / edge to read the distance and the segment from)" % (k, call["features"])
+        for (k, X, Y, q, isflat, r) in self.mapf_rows(case, out):
+            if self.mapf_unconstrained(X, Y, calls[k]["Q"]):
+                break
+            d, xp, yp, i, z = r
+            if isflat and z != 0.0:
+                return "call %d, query %s: mapOnTrack returned a point with z = %r on a flat track" % (k, q, z)
+            w = check_answer(X, Y, q, d, xp, yp, i)
+            if w:
+                msg = "call %d (mapOnTrack(track, track), track of queries %s), query %s: %s" % (
+                    k, "= output of call %d" % (k - 1) if k else "with the features %s" % [f[0] for f in case.get("feats", [])], q, w)
+                if self.classify_one(X, Y, q, (d, xp, yp, i)) is None:
+                    return msg
+                first = first or msg
+        if "err" in out:
+            if self.mapf_err_class(case, out) == "outside":
+                return first
+            return first or "call %d raised %s" % (len(calls), out["err"])
+        return first
+
+    def classify_mapf(self, case, out, msg):
+        refs = self.mapf_refs(case)
+        calls = out.get("calls", [])
+        classes = []
+        for k, call in enumerate(calls[:len(refs)]):
+            X, Y, Z = refs[k]
+            if self.mapf_unconstrained(X, Y, call["Q"]):
+                break
+            if call["n"] != len(call["Q"]) or len(call["rows"]) != len(call["Q"]) or "dist" not in call["features"] or "edge" not in call["features"]:
+                return None
+            for q, r in zip(call["Q"], call["rows"]):
+                if flat(Z) and flat([None if q[2] != q[2] else q[2]]) and r[4] != 0.0:
+                    return None
+                c = self.classify_one(X, Y, q[:2], tuple(r[:4]))
+                if c is None:
+                    return None
+                if c != "ok":
+                    classes.append(c)
+        else:
+            if "err" in out:
+                c = self.mapf_err_class(case, out)
+                if c is None:
+                    return None
+                if c != "outside":
+                    classes.append(c)
+        return classes[0] if classes else None
+
     def spec(self, case, out):
         """The projection is PLANIMETRIC (proj_segment / proj_polyligne take x, y only; mapOnTrack reads getX(), getY()):
         every clause — point on the carrying segment, distance to the returned point, minimum distance — is checked in
         the (X, Y) plane, whatever the altitudes of the track and of the query. The third coordinate of the returned
         point is constrained only when everything is flat (a point of a polyline at altitude 0 has altitude 0)."""
+        if "plumbing" in out:
+            return None         # the harness failed to build the inputs (see Plumbing): not an answer of the projection, nothing to judge
+        if case["kind"] == "mapf":
+            return self.spec_mapf(case, out)
         if self.out_of_range(case):
             return None         # all distances inf / NaN (non-finite or overflowing coordinates): nothing to constrain, whatever is returned or raised
         if not self.in_domain(case):
@@ -818,8 +1147,8 @@ class P(Prop):
         if k in ("mapt", "seq"):
             if out["n"] != len(qs) or len(out["rows"]) != len(qs):
                 return "mapOnTrack returned %d observations for %d queries" % (out["n"], len(qs))
-        if k == "mapt" and out["features"] != ["dist", "edge"]:
-            return "mapOnTrack output carries the features %s" % out["features"]
+        if k == "mapt" and not ("dist" in out["features"] and "edge" in out["features"]):
+            return "mapOnTrack output carries the features %s (no dist / edge to read the distance and the segment from)" % out["features"]
         first = None
         for (X, Y, q, isflat, d, xp, yp, i, z) in self.rows_of(case, out):
             if z is not None and isflat and z != 0.0:
@@ -869,8 +1198,10 @@ class P(Prop):
         return False
 
     def classify(self, case, impl_out, msg):
-        if not msg or impl_out is None:
+        if not msg or impl_out is None or "plumbing" in impl_out:
             return None
+        if case["kind"] == "mapf":
+            return self.classify_mapf(case, impl_out, msg)
         if case["kind"] == "polyxy" and len(case["Y"]) < len(case["X"]):
             return None
         qs = self.queries_of(case)
@@ -882,7 +1213,7 @@ class P(Prop):
             return None
         if case["kind"] in ("mapt", "seq") and (impl_out.get("n") != len(qs) or len(impl_out.get("rows", [])) != len(qs)):
             return None
-        if case["kind"] == "mapt" and impl_out.get("features") != ["dist", "edge"]:
+        if case["kind"] == "mapt" and not ("dist" in impl_out.get("features", []) and "edge" in impl_out.get("features", [])):
             return None
         classes = []
         for (X, Y, q, isflat, d, xp, yp, i, z) in self.rows_of(case, impl_out):
@@ -896,8 +1227,69 @@ class P(Prop):
         return classes[0] if classes else None
 
     # ------------------------------------------------------------------ shrinking / search
+    def shrink_mapf(self, case):
+        more = case.get("more", [])
+        if case.get("alias"):
+            Q0 = self.mapf_queries0(case)
+            yield dict(case, alias=False, Q=[q[:2] for q in Q0], QZ=[q[2] for q in Q0], times=None,
+                       feats=[[nm, [float(j) for j in range(len(Q0))]] for nm in case.get("rfeats", [])] + [f for f in case.get("feats", []) if f[0] not in case.get("rfeats", [])])
+            return
+        if more:
+            yield dict(case, more=more[:-1])
+            yield dict(case, X=more[0]["X"], Y=more[0]["Y"], Z=more[0]["Z"], more=more[1:])
+        feats = case.get("feats", [])
+        for j in range(len(feats)):
+            yield dict(case, feats=feats[:j] + feats[j + 1:])
+        if case.get("times") is not None:
+            yield dict(case, times=None)
+        if case.get("rfeats"):
+            yield dict(case, rfeats=[])
+        Q = case["Q"]
+        for j in range(len(Q)):
+            if len(Q) > 1:
+                yield dict(case, Q=Q[:j] + Q[j + 1:], QZ=case["QZ"][:j] + case["QZ"][j + 1:],
+                           feats=[[f[0], f[1][:j] + f[1][j + 1:]] for f in feats],
+                           times=None if case.get("times") is None else case["times"][:j] + case["times"][j + 1:])
+        if case.get("coords", "ENU") != "ENU":
+            yield dict(case, coords="ENU")
+        if not (flat(case["Z"]) and flat(case["QZ"]) and all(flat(r["Z"]) for r in more)):
+            yield dict(case, alt="flat", Z=[0.0] * len(case["Z"]), QZ=[0.0] * len(Q), more=[dict(r, Z=[0.0] * len(r["Z"])) for r in more])
+        if not feats and not more and case.get("times") is None and not case.get("rfeats") and Q:
+            yield {"kind": "mapt", "coords": case.get("coords", "ENU"), "X": case["X"], "Y": case["Y"], "Z": case["Z"], "Q": Q, "QZ": case["QZ"]}
+        n = len(case["X"])
+        for j in range(n):
+            if n > 2:
+                yield dict(case, X=case["X"][:j] + case["X"][j + 1:], Y=case["Y"][:j] + case["Y"][j + 1:], Z=case["Z"][:j] + case["Z"][j + 1:])
+        for a, r in enumerate(more):
+            for j in range(len(r["X"])):
+                if len(r["X"]) > 2:
+                    yield dict(case, more=more[:a] + [{"X": r["X"][:j] + r["X"][j + 1:], "Y": r["Y"][:j] + r["Y"][j + 1:], "Z": r["Z"][:j] + r["Z"][j + 1:]}] + more[a + 1:])
+        for f in range(len(feats)):
+            for j, v in enumerate(feats[f][1]):
+                if v != 0.0:
+                    yield dict(case, feats=feats[:f] + [[feats[f][0], feats[f][1][:j] + [0.0] + feats[f][1][j + 1:]]] + feats[f + 1:])
+
+    def mutate_mapf(self, case, rng):
+        """neighbours of a case on track objects: its shrunk variants, the same call with the track of queries carrying a
+        `dist` / an `edge` feature of its own, and the same chain continued by one more call on the first reference"""
+        for c in self.shrink_mapf(case):
+            yield c
+        if case.get("alias"):
+            return
+        names = [f[0] for f in case.get("feats", [])]
+        nq = len(case["Q"])
+        for nm in ("dist", "edge"):
+            if nm not in names and nq:
+                yield dict(case, feats=case.get("feats", []) + [[nm, [FEAT_VALUES[(j + 1) % len(FEAT_VALUES)] for j in range(nq)]]])
+        if len(case.get("more", [])) < 2:
+            yield dict(case, more=case.get("more", []) + [{"X": case["X"], "Y": case["Y"], "Z": case["Z"]}])
+
     def shrink(self, case):
         k = case["kind"]
+        if k == "mapf":
+            for c in self.shrink_mapf(case):
+                yield c
+            return
         if k == "seq":
             ops = case["ops"]
             for j in range(len(ops)):
@@ -981,6 +1373,10 @@ class P(Prop):
                 yield dict(case, q=qq)
 
     def mutate(self, case, rng):
+        if case["kind"] == "mapf":
+            for c in self.mutate_mapf(case, rng):
+                yield c
+            return
         if case["kind"] == "seq":
             for (X, Y, Z, q) in self.seq_steps(case):
                 yield {"kind": "map", "coords": case.get("coords", "ENU"), "X": X, "Y": Y, "Z": Z, "q": q[:2], "qz": q[2]}
@@ -988,6 +1384,12 @@ class P(Prop):
         if case["kind"] == "mapt":
             for c in self.shrink(case):
                 yield c
+            if "Z" in case:     # the same call on track objects that carry state (features named dist / edge, a second call)
+                base = {"kind": "mapf", "coords": case.get("coords", "ENU"), "X": case["X"], "Y": case["Y"], "Z": case["Z"], "more": [],
+                        "Q": case["Q"], "QZ": case.get("QZ", [0.0] * len(case["Q"])), "feats": [], "times": None, "rfeats": [], "alias": False}
+                for c in self.mutate_mapf(base, rng):
+                    if c.get("kind") == "mapf" and (c.get("feats") or c.get("more")):
+                        yield c
             return
         if any(isinstance(v, str) for v in case["q"]):
             return
